@@ -49,6 +49,10 @@ CHECKS = {
          "exhaustive small-scope enumeration (all strings over {CR,LF,x} up to length L x all chunkings) + seeded random long strings on buffer edges, differential against a 10-line reference canonicalizer and an independently computed SHA-256 signature digest",
          "exploration with an exhaustively enumerated scope: every string of length <=8 (thorough <=10) over the 3-class alphabet under every source/write chunking and three consumer patterns for NormalizedReader, NormalizingHasher (observed via recording signer) and normalize_lines (observed via the cleartext callback); long strings with patterns on 512/1024/8192 edges; builder and message-reader digests; signature invariance/non-invariance under all single-symbol edits; Utf8-mode CRLF check accept/reject under all chunkings",
          "reference canon() and the RustCrypto sha2 digest are trusted; the three-class abstraction is justified by the code branching only on CR, LF, other"),
+ "C16": ("DESIGN.md §4 C16",
+         "grammar-based generated-input search: texts over dash/armor-boundary/whitespace/UTF-8 tokens signed through every cleartext API; oracles: reference RFC 9580 7.2 signed form, independent splitter of the emitted document (unspoofable framing), from_string round trip, re-emission stability, and a metamorphic edit rule (an edit of the text section verifies iff the reference signed form is unchanged)",
+         "exploration: ~12k (thorough 300k) texts of 0..8 lines x {LF, CRLF} x final newline, tokens incl. '-', '- ', '-----BEGIN PGP SIGNATURE-----', 'Hash: SHA256', trailing SP/TAB, NBSP, U+3000, VT, FF, lone CR inside / at the end; sign/new/new_many with 1..2 signers over all zoo signing algorithms and their hash algorithms",
+         "signed form reference = trailing SP/TAB stripped per LF-terminated line, then the C14 canonicalization; headers other than Hash are not generated (rPGP refuses them)"),
  "C17": ("DESIGN.md §4 C17",
          "generated-input search + exhaustive enumeration of partial-length sequences: bodies (harvested from real artifacts and generated) wrapped in every framing by an independent framer; metamorphic oracle (parse equals parse of the canonical framing, following sentinel packet found, message reader returns the literal data), illegal framings must not yield an Ok packet, writer output de-framed by the independent de-framer",
          "exploration: ~45k (thorough ~800k) framings over all packet types incl. unknown tags x new 1/2/5-octet, legacy 0/1/2, indeterminate, partial sequences; lengths on 191/192, 8383/8384, 65535/65536; 5 classes of illegal framing; exhaustive: every partial exponent sequence of <=3 chunks for the listed literal body lengths; writer side: every parsed packet is re-serialized and must de-frame to one legally framed packet with the same body",
